@@ -43,6 +43,8 @@ def run_history(ctx, stream: bytes, ids13, cuts, schedule, garbage_free, case, e
             chunks.append(stream[prev:c])
             prev = c
     returned = []
+    returned_objs = []          # the very objects the parser handed out (the caller keeps them while it goes on receiving)
+    chunk_objs = []             # the caller's chunk buffers; once the parser has consumed one the caller re-uses it for the next read
     appended = bytearray()
     want_all = expected if expected is not None else split_stream(stream, set(ids13))[0]
     nparse = 0
@@ -56,6 +58,15 @@ def run_history(ctx, stream: bytes, ids13, cuts, schedule, garbage_free, case, e
             ctx.fail("parser.call", "raised", exc_sig(res), case, error=repr(res), at=label)
             return False
         returned.extend(bytes(p) for p in res)
+        returned_objs.extend(res)
+        # receive-buffer re-use: every chunk object the parser has taken out of the queue is overwritten by the caller
+        in_queue = {id(x) for x in q}
+        for cobj in chunk_objs:
+            if id(cobj) not in in_queue and isinstance(cobj, bytearray) and len(cobj):
+                for i_ in range(len(cobj)):
+                    cobj[i_] ^= 0xFF
+                ctx.table("receive_buffers_overwritten_after_consumption", "count")
+        chunk_objs[:] = [c for c in chunk_objs if id(c) in in_queue]
         tail = b"".join(bytes(x) for x in q)
         if garbage_free:
             want_now, consumed = split_stream(bytes(appended), set(ids13))
@@ -82,7 +93,9 @@ def run_history(ctx, stream: bytes, ids13, cuts, schedule, garbage_free, case, e
         # chunk objects as a receiver would produce them: bytearray (documented), bytes, and occasional empty reads
         if variant == 1 and i % 3 == 1:
             q.append(bytearray())
-        q.append(bytes(ch) if variant == 2 and i % 2 else bytearray(ch))
+        cobj = bytes(ch) if variant == 2 and i % 2 else bytearray(ch)
+        chunk_objs.append(cobj)
+        q.append(cobj)
         if variant == 1 and i % 4 == 3:
             q.append(bytearray())
         appended.extend(ch)
@@ -99,6 +112,7 @@ def run_history(ctx, stream: bytes, ids13, cuts, schedule, garbage_free, case, e
         return
     if not parse("final_again"):
         return
+    ctx.check("parser.returned_objects_stable", [bytes(o) for o in returned_objs] == returned, "returned_packet_changed_after_the_caller_reused_its_buffer", "", case)
     ctx.ev("parser.final")
     if returned != want_all:
         how = "missing" if len(returned) < len(want_all) else "extra" if len(returned) > len(want_all) else "different"
@@ -340,7 +354,7 @@ def conclude(ctx):
     cc = ctx.tables.get("cut_classes", {})
     for c in ["in_header@1", "in_header@2", "in_header@3", "in_header@4", "in_header@5", "after_header", "mid_payload", "one_before_end", "packet_boundary"]:
         ctx.require(cc.get(c, 0) > 0, f"cut class {c} never observed")
-    for m in ("parser.ids_from_objects", "parser.call", "parser.conservation", "parser.exactly_once", "parser.final", "parser.idempotent"):
+    for m in ("parser.returned_objects_stable", "parser.ids_from_objects", "parser.call", "parser.conservation", "parser.exactly_once", "parser.final", "parser.idempotent"):
         ctx.require(ctx.monitors.get(m, {}).get("evaluations", 0) > 0, f"monitor {m} never evaluated")
     for s in SCHEDULES:
         ctx.require(ctx.classes.get(f"frag/{s}", 0) > 0 and ctx.classes.get(f"garbage/{s}", 0) > 0, f"schedule {s} not exercised")
